@@ -1148,6 +1148,11 @@ func (c *dtChannel) close(ctx context.Context) error {
 	}
 	c.lk.Unlock()
 
+	// Nothing to wait for if there was no request to cancel
+	if errch == nil {
+		return nil
+	}
+
 	// Wait for the cancel message to complete
 	select {
 	case err := <-errch:
